@@ -1,0 +1,55 @@
+//go:build verif
+
+package stateless
+
+import (
+	cmttypes "github.com/cometbft/cometbft/types"
+
+	"github.com/oasisprotocol/oasis-core/go/common/crypto/hash"
+	consensusAPI "github.com/oasisprotocol/oasis-core/go/consensus/api"
+	"github.com/oasisprotocol/oasis-core/go/consensus/api/transaction"
+	"github.com/oasisprotocol/oasis-core/go/consensus/cometbft/api"
+)
+
+// Exports of the package-private verification functions for the external
+// deterministic-simulation harness (build tag "verif" only).
+
+// VerifVerifyBlock exposes verifyBlock.
+func VerifVerifyBlock(blk *consensusAPI.Block, lb *cmttypes.LightBlock) error {
+	return verifyBlock(blk, lb)
+}
+
+// VerifVerifyBlockResults exposes verifyBlockResults.
+func VerifVerifyBlockResults(results *consensusAPI.BlockResults, resultsHash []byte, lb *cmttypes.LightBlock) (*api.BlockResultsMeta, error) {
+	return verifyBlockResults(results, resultsHash, lb)
+}
+
+// VerifVerifyTransactions exposes verifyTransactions.
+func VerifVerifyTransactions(txs [][]byte, lb *cmttypes.LightBlock) error {
+	return verifyTransactions(txs, lb)
+}
+
+// VerifTransactionsWithProofs exposes transactionsWithProofs.
+func VerifTransactionsWithProofs(txs [][]byte) *consensusAPI.TransactionsWithProofs {
+	return transactionsWithProofs(txs)
+}
+
+// VerifVerifyTransactionProof exposes verifyTransactionProof.
+func VerifVerifyTransactionProof(proof *transaction.Proof, tx *transaction.SignedTransaction, lb *cmttypes.LightBlock) error {
+	return verifyTransactionProof(proof, tx, lb)
+}
+
+// VerifVerifyNextValidators exposes (*Core).verifyNextValidators.
+func (c *Core) VerifVerifyNextValidators(validators *consensusAPI.Validators, lb *cmttypes.LightBlock) error {
+	return c.verifyNextValidators(validators, lb)
+}
+
+// VerifStateRootFromBlockTxs exposes stateRootFromBlockTxs.
+func VerifStateRootFromBlockTxs(txs [][]byte) (hash.Hash, error) {
+	return stateRootFromBlockTxs(txs)
+}
+
+// VerifStateRootFromMetaTx exposes stateRootFromMetaTx.
+func VerifStateRootFromMetaTx(metaTx []byte) (hash.Hash, error) {
+	return stateRootFromMetaTx(metaTx)
+}
